@@ -199,7 +199,7 @@ def min_eig(m):
     return float(numpy.linalg.eigvalsh(numpy.asarray(m, dtype=float)).min())
 
 
-def drive(name, T, k, start, hist, hist_kind, rng, on_step, reset_at=None, roundtrip_at=None, blobs=False):
+def drive(name, T, k, start, hist, hist_kind, rng, on_step, reset_at=None, roundtrip_at=None, blobs=False, spread=(1.0, 1.0)):
     """Feed the real proposal the history; on_step(kind, before, after, info)."""
     kind, make = MFAMILIES[name]
     prop = make(T, k, start)
@@ -217,7 +217,7 @@ def drive(name, T, k, start, hist, hist_kind, rng, on_step, reset_at=None, round
             fresh.set_state(pickle.loads(pickle.dumps(prop.state)))
             prop = fresh
             fresh_before = True
-        proposed = [pos[0] + rng.uniform(-0.5, 0.5), min(0.99, max(0.01, pos[1] + rng.uniform(-0.1, 0.1)))]
+        proposed = [pos[0] + spread[0] * rng.uniform(-0.5, 0.5), min(0.99, max(0.01, pos[1] + spread[1] * rng.uniform(-0.1, 0.1)))]
         if nd == 3:
             proposed.append(pos[2] + rng.gauss(0, 2.0))
         if accepted:
